@@ -867,8 +867,27 @@ fn write_rl(rng: &mut Rng, out: &mut Out, reps: usize) {
     for _ in 0..(14 * reps) {
         plans.push((rng.range(1, 150) as usize, rng.below(5)));
     }
+    // the fill rule at its edges ("a block is padded only if the next run does not fit"): a run whose gap or length
+    // sits at a code-length boundary arrives with one unit too few / exactly enough / one to spare
+    let mut inputs: Vec<(u64, Vec<(u64, u64)>)> = Vec::new();
     for (count, style) in plans {
-        let (len, runs) = gen_runs(rng, count, style);
+        inputs.push(gen_runs(rng, count, style));
+    }
+    for v in rl_unit_boundaries(if reps > 1 { 20 } else { 7 }) {
+        for in_len in [false, true] {
+            for slack in [-1i64, 0, 1] {
+                if reps == 1 && slack == 1 && !rng.chance(1, 3) {
+                    continue;
+                }
+                let lead = rng.below(2) as usize;
+                let after = 1 + rng.below(5) as usize;
+                let (len, runs) = rl_directed(rng, v, in_len, slack, lead, after);
+                inputs.push((len as u64, runs.iter().map(|(a, b)| (*a as u64, *b as u64)).collect()));
+                out.stat("w.TRL.block_edge_directed");
+            }
+        }
+    }
+    for (len, runs) in inputs {
         // some runs are given to the builder in two adjacent pieces (it must merge them: runs are maximal)
         let mut b = RLBuilder::new();
         let mut split = false;
